@@ -344,25 +344,18 @@ def r4(ctx):
     if isinstance(tg, ast.Tuple) and isinstance(tg.elts[-1], ast.Tuple):
         cvar, pvar = text(tg.elts[-1].elts[0]), text(tg.elts[-1].elts[1])
     ctx.require(cvar, "C07.R4: iterRange loop target not recognised")
-    # path predicate of the yield
-    atoms = set()
-    for t, pol in atomic_guards(y, stop=loop):
-        if isinstance(t, ast.BoolOp) and isinstance(t.op, ast.Or) and pol:
-            atoms.add(("or", tuple(sorted(_atom(ctx, f, x, True) for x in t.values))))
-        else:
-            atoms.add(_atom(ctx, f, t, pol))
-    need_start = ("or", tuple(sorted([("is", "start", "None"), ("<=", "start", cvar)])))
-    need_end_a = ("or", tuple(sorted([("is", "end", "None"), ("<", cvar, "end")])))
-    empt = ("call", "not Payload.isEmpty(%s, default=self.getDefault())" % pvar)
-    have_end = need_end_a in atoms
-    # the `end` clause normally appears as the negation of the break guard:
-    # not (end is not None and coord >= end)
-    for t, pol in guards(y, stop=loop):
-        if not pol and isinstance(t, ast.BoolOp) and isinstance(t.op, ast.And):
-            neg = tuple(sorted(_atom(ctx, f, x, False) for x in t.values))
-            if ("or", neg) == need_end_a:
-                have_end = True
-    if need_start in atoms:
+    # path predicate of the yield, in DNF over canonical atoms: the emission
+    # is guarded by a clause `a or b` when every way of reaching it has a or b
+    # -- whether the code nests ifs, joins them with `and`, or skips the rest
+    # with `continue` under the negated (De Morgan) condition
+    ways = pat.guard_dnf(ctx, f, y, stop=loop) or []
+
+    def holds(*alts):
+        return bool(ways) and all(set(alts) & set(w) for w in ways)
+    need_start = holds(pat.A("is", "start", "None"), pat.A("<=", "start", cvar))
+    have_end = holds(pat.A("is", "end", "None"), pat.A("<", cvar, "end"))
+    empt_ok = holds(pat.T("Payload.isEmpty(%s, default=self.getDefault())" % pvar, False))
+    if need_start:
         ctx.ok("C07.R4", f, y, "emits only coordinates >= start (or start is None)")
     else:
         ctx.bad("C07.R4", f, y, "iterRange's emission is not guarded by `start "
@@ -374,7 +367,7 @@ def r4(ctx):
         ctx.bad("C07.R4", f, y, "iterRange's emission is not guarded by `end is "
                 "None or coord < end` (off-by-one at the upper bound)",
                 text_="iterRange upper bound")
-    if empt in atoms:
+    if empt_ok:
         ctx.ok("C07.R4", f, y, "payloads empty w.r.t. the fiber's default are skipped")
     else:
         ctx.bad("C07.R4", f, y, "iterRange does not skip exactly the payloads "
